@@ -37,8 +37,6 @@ def run(ctx, texts, unit='inline', renderers=(('HtmlRenderer', {}),)):
     for i, t in enumerate(texts):
         rname, kw = renderers[i % len(renderers)]
         res, stypes = real_inline(rname, kw, t)
-        if any(s.startswith('XWiki') for s in stypes):
-            continue
         reqs.append({'op': 'inline.tokenize', 'span': stypes, 'text': t, 'footnotes': []})
         exp.append(res)
         meta.append({'text': t, 'renderer': rname})
